@@ -8,7 +8,7 @@ namespace Sqfs.MemPool
 
 theorem BlockWf.congr {p p' : Pool} {x : Block} (w : BlockWf p x) (h1 : p'.objSize = p.objSize) (h2 : p'.bitmapCount = p.bitmapCount) :
     BlockWf p' x :=
-  ⟨by rw [h2]; exact w.len, w.free, by rw [h1, h2]; exact w.lim, by rw [h2]; exact w.hdr, by rw [h1]; exact w.align⟩
+  ⟨by rw [h2]; exact w.len, w.free, by rw [h1, h2]; exact w.lim, by rw [h2]; exact w.hdr, by rw [h1]; exact w.align, by rw [h1, h2]; exact w.doff⟩
 
 /-- setting the (clear) bit `k` of block `b`: the invariant holds with the slot's address added, and that address was not live -/
 theorem inv_set {p : Pool} {e : Env} {live : List (Nat × Nat)} {pre post : List Block} {b b' : Block} {k : Nat}
@@ -87,33 +87,27 @@ theorem createPool_wf {p : Pool} (ho : 0 < p.objSize) (hc : p.bitmapCount ≤ 16
     cases hh : (List.replicate p.bitmapCount (0 : Word))[k / 32]? with
     | none => simp
     | some w => have := List.mem_replicate.mp (List.mem_of_getElem? hh); simp [this.2]
-  refine ⟨⟨by simp [createPool], ?_, ?_, ?_, ?_⟩, ?_, ?_, rfl⟩
+  have hH : HDR = 40 := rfl
+  have hlt := Nat.mod_lt (HDR + 4 * p.bitmapCount) ho
+  have hle := Nat.mod_le (HDR + 4 * p.bitmapCount) p.objSize
+  refine ⟨⟨by simp [createPool], ?_, ?_, ?_, ?_, ?_⟩, ?_, ?_, rfl⟩
   · simp only [createPool, hw, clearBits_replicate]
   · simp only [createPool, hw]
-    have hH : HDR = 40 := rfl
-    have hlt := Nat.mod_lt (base + HDR + 4 * p.bitmapCount) ho
-    generalize (base + HDR + 4 * p.bitmapCount) % p.objSize = m at hlt ⊢
+    generalize (HDR + 4 * p.bitmapCount) % p.objSize = m at hlt hle ⊢
     split <;> omega
   · simp only [createPool]
-    have hH : HDR = 40 := rfl
-    have hlt := Nat.mod_lt (base + HDR + 4 * p.bitmapCount) ho
-    generalize (base + HDR + 4 * p.bitmapCount) % p.objSize = m at hlt ⊢
+    generalize (HDR + 4 * p.bitmapCount) % p.objSize = m at hlt hle ⊢
     split <;> omega
   · simp only [createPool]
     split
-    · rename_i hne
-      have hlt := Nat.mod_lt (base + HDR + 4 * p.bitmapCount) ho
-      have hle := Nat.mod_le (base + HDR + 4 * p.bitmapCount) p.objSize
-      have : base + (base + HDR + 4 * p.bitmapCount + p.objSize - (base + HDR + 4 * p.bitmapCount) % p.objSize - base)
-          = (base + HDR + 4 * p.bitmapCount) - (base + HDR + 4 * p.bitmapCount) % p.objSize + p.objSize := by omega
-      rw [this, Nat.add_mod_right]
-      have h1 := Nat.mod_add_div (base + HDR + 4 * p.bitmapCount) p.objSize
-      have : base + HDR + 4 * p.bitmapCount - (base + HDR + 4 * p.bitmapCount) % p.objSize
-          = p.objSize * ((base + HDR + 4 * p.bitmapCount) / p.objSize) := by omega
+    · have h1 := Nat.mod_add_div (HDR + 4 * p.bitmapCount) p.objSize
+      have : HDR + 4 * p.bitmapCount + p.objSize - (HDR + 4 * p.bitmapCount) % p.objSize
+          = p.objSize * ((HDR + 4 * p.bitmapCount) / p.objSize + 1) := by rw [Nat.mul_add]; omega
       rw [this]; exact Nat.mul_mod_right _ _
     · rename_i heq
-      have : base + (base + HDR + 4 * p.bitmapCount - base) = base + HDR + 4 * p.bitmapCount := by omega
-      rw [this]; simpa using heq
+      simpa using heq
+  · simp only [createPool, padTo]
+    split <;> omega
   · exact hbits
   · simp only [createPool, hw]
 
@@ -145,14 +139,14 @@ theorem inv_link {p : Pool} {e : Env} {live : List (Nat × Nat)} (h : Inv p e li
       · exact ⟨b, hb, k, hk, hbit, ha⟩
 
 /-- One call of `mem_pool_allocate` from a consistent state, whatever the fuel: an object is handed out that was not live, lies
-in the data area of a block of the pool, aligned; or NULL with the invariant intact; or the fuel ran out. -/
+in the data area of a block of the pool, aligned; or NULL with the invariant intact; or the fuel ran out, which needs a fuel not above the number of pending mmap answers. -/
 theorem alloc_step : ∀ (fuel : Nat) {p : Pool} {e : Env} {live : List (Nat × Nat)}, Inv p e live →
     match allocate fuel p e with
     | (.ptr bid off, p', e') => Inv p' e' ((bid, off) :: live) ∧ (bid, off) ∉ live ∧
         ∃ b ∈ p'.blocks, b.id = bid ∧ b.dataOff ≤ off ∧ off + p.objSize ≤ b.limitOff + 1 ∧ (off - b.dataOff) % p.objSize = 0 ∧
-          HDR + 4 * p.bitmapCount ≤ off ∧ (b.base + off) % p.objSize = 0
+          HDR + 4 * p.bitmapCount ≤ off ∧ off % p.objSize = 0
     | (.null, p', e') => Inv p' e' live ∧ (0 < p.bitmapCount → p' = p)
-    | (.fuel, _, _) => True
+    | (.fuel, _, _) => fuel ≤ e.q.length
   | 0, p, e, live, h => by simp [allocate]
   | fuel + 1, p, e, live, h => by
     unfold allocate
@@ -161,7 +155,7 @@ theorem alloc_step : ∀ (fuel : Nat) {p : Pool} {e : Env} {live : List (Nat × 
     have bounds : ∀ (b b' : Block) (k : Nat), BlockWf p b' → b'.dataOff = b.dataOff → b'.base = b.base → k < 32 * p.bitmapCount →
         b'.dataOff ≤ b.dataOff + k * p.objSize ∧ b.dataOff + k * p.objSize + p.objSize ≤ b'.limitOff + 1 ∧
         (b.dataOff + k * p.objSize - b'.dataOff) % p.objSize = 0 ∧ HDR + 4 * p.bitmapCount ≤ b.dataOff + k * p.objSize ∧
-        (b'.base + (b.dataOff + k * p.objSize)) % p.objSize = 0 := by
+        (b.dataOff + k * p.objSize) % p.objSize = 0 := by
       intro b b' k hwf hd hbase hk
       have hlim := hwf.lim
       have hhdr := hwf.hdr
@@ -171,8 +165,7 @@ theorem alloc_step : ∀ (fuel : Nat) {p : Pool} {e : Env} {live : List (Nat × 
       refine ⟨by omega, by omega, ?_, by omega, ?_⟩
       · have : b.dataOff + k * p.objSize - b'.dataOff = k * p.objSize := by omega
         rw [this]; exact Nat.mul_mod_left _ _
-      · have : b'.base + (b.dataOff + k * p.objSize) = (b'.base + b'.dataOff) + k * p.objSize := by omega
-        rw [this, Nat.add_mul_mod_self_right]; exact hal
+      · rw [Nat.add_mul_mod_self_right, ← hd]; exact hal
     cases hwk : walk p.objSize p.blocks with
     | got bid off bs =>
       rw [hwk] at hw
@@ -222,14 +215,14 @@ theorem alloc_step : ∀ (fuel : Nat) {p : Pool} {e : Env} {live : List (Nat × 
             cases r1 with
             | ptr bid off => exact fun ih => ih
             | null => exact fun ih => ⟨ih.1, fun h0 => absurd h0 hc0⟩
-            | fuel => exact fun _ => trivial
+            | fuel => exact fun ih => by simp at ih ⊢; omega
 
 /-- (a) every object handed out lies in the data area `[data, limit]` of a block of the pool (behind header and bitmap),
-at a multiple of `obj_size` from `data`, and at an absolute address that is a multiple of `obj_size` -/
+at a multiple of `obj_size` from `data` and from the start of the block -/
 theorem alloc_in_bounds {fuel : Nat} {p p' : Pool} {e e' : Env} {live : List (Nat × Nat)} {bid off : Nat} (h : Inv p e live)
     (ha : allocate fuel p e = (.ptr bid off, p', e')) :
     ∃ b ∈ p'.blocks, b.id = bid ∧ b.dataOff ≤ off ∧ off + p.objSize ≤ b.limitOff + 1 ∧ (off - b.dataOff) % p.objSize = 0 ∧
-      HDR + 4 * p.bitmapCount ≤ off ∧ (b.base + off) % p.objSize = 0 := by
+      HDR + 4 * p.bitmapCount ≤ off ∧ off % p.objSize = 0 := by
   have := alloc_step fuel h
   rw [ha] at this
   exact this.2.2
@@ -330,7 +323,7 @@ theorem free_step {p : Pool} {e : Env} {live : List (Nat × Nat)} (h : Inv p e l
     have := inv_clear (b' := { b with bitmap := clearBit b.bitmap (k0 / 32) (k0 % 32), objFree := w64 (b.objFree + 1) })
       h hdec rfl rfl hk0
       ⟨by simp [clearBit_length, hlen], by simp only [w64_small (show b.objFree + 1 < 18446744073709551616 by omega)]; omega,
-        hwf.lim, hwf.hdr, hwf.align⟩
+        hwf.lim, hwf.hdr, hwf.align, hwf.doff⟩
       (by intro k'; simp only [bitAt_clearBit hi hj, hk']; by_cases hkk : k' = k0 <;> simp [hkk]) hbit
     exact this
 
@@ -348,6 +341,21 @@ theorem allocate_objSize : ∀ (fuel : Nat) (p : Pool) (e : Env), (allocate fuel
         split
         · rfl
         · rw [allocate_objSize fuel]
+
+theorem allocate_bitmapCount : ∀ (fuel : Nat) (p : Pool) (e : Env), (allocate fuel p e).2.1.bitmapCount = p.bitmapCount
+  | 0, p, e => rfl
+  | fuel + 1, p, e => by
+    unfold allocate
+    split
+    · rfl
+    · rw [allocate_bitmapCount fuel]
+    · split
+      · rfl
+      · rfl
+      · simp only []
+        split
+        · rfl
+        · rw [allocate_bitmapCount fuel]
 
 theorem free_objSize {p p' : Pool} {bid off : Nat} (h : free p bid off = .ok p') : p'.objSize = p.objSize := by
   unfold free at h
@@ -388,6 +396,178 @@ theorem history_inv : ∀ (ops : List Op) {p p' : Pool} {e e' : Env} {live live'
       exact history_inv ops hinv (by rw [free_objSize hf]; exact h2) hr
     · simp [ha] at hr
 
+/-- the fuel `allocFuel` the histories (and the driver) use always suffices -/
+theorem allocate_fuel_enough {p : Pool} {e : Env} {live : List (Nat × Nat)} (h : Inv p e live) :
+    (allocate (allocFuel p e) p e).1 ≠ .fuel := by
+  have hs := alloc_step (allocFuel p e) h
+  revert hs
+  generalize allocate (allocFuel p e) p e = r
+  obtain ⟨r1, p1, e1⟩ := r
+  cases r1 with
+  | ptr bid off => exact fun _ => by simp
+  | null => exact fun _ => by simp
+  | fuel => exact fun hs => by simp only [allocFuel] at hs; omega
+
+theorem padTo_spec (x : Nat) {o : Nat} (ho : 0 < o) : padTo x o < o ∧ (x + padTo x o) % o = 0 := by
+  unfold padTo
+  have hlt := Nat.mod_lt x ho
+  split
+  · refine ⟨by omega, ?_⟩
+    have h1 := Nat.mod_add_div x o
+    have : x + (o - x % o) = o * (x / o + 1) := by rw [Nat.mul_add]; omega
+    rw [this]; exact Nat.mul_mod_right _ _
+  · rename_i h; exact ⟨ho, by simpa using h⟩
+
+/-- (e) the size arithmetic of `pool_size_from_bitmap_count` in closed form (no `size_t` wrap-around for obj_size < 2^32 and the
+counts `mem_pool_create` can reach): header | `count` bitmap words | padding `< obj_size` up to a multiple of `obj_size` |
+`32 * count` objects - bitmap and data do not overlap and the objects fit exactly -/
+theorem size_layout {c o : Nat} (ho : 0 < o) (ho2 : o < 4294967296) (hc : c ≤ 16400) :
+    poolSizeFromBitmapCount c o = some (HDR + 4 * c + padTo (HDR + 4 * c) o + 32 * c * o) := by
+  have hH : HDR = 40 := rfl
+  have hb : c * 4 * 8 * o ≤ 16400 * 4 * 8 * o := Nat.mul_le_mul_right o (by omega)
+  have e1 : w64 (c * 4) = c * 4 := w64_small (by omega)
+  have e2 : w64 (c * 4 * 8) = c * 4 * 8 := w64_small (by omega)
+  have e3 : w64 (c * 4 * 8 * o) = c * 4 * 8 * o := w64_small (by omega)
+  have e4 : w64 (HDR + c * 4) = HDR + c * 4 := w64_small (by omega)
+  have e5 : (32 * c) * o = c * 4 * 8 * o := by rw [show 32 * c = c * 4 * 8 by omega]
+  have hlt := Nat.mod_lt (HDR + c * 4) ho
+  have e0 : HDR + 4 * c = HDR + c * 4 := by omega
+  unfold poolSizeFromBitmapCount padTo
+  rw [e0, e5]
+  simp only [Nat.ne_of_gt ho, if_false, e1, e2, e3, e4, show HDR % 4 = 0 from rfl, ne_eq, not_true_eq_false]
+  split
+  · have e6 : w64 (HDR + c * 4 + (o - (HDR + c * 4) % o)) = HDR + c * 4 + (o - (HDR + c * 4) % o) := w64_small (by omega)
+    rw [e6, w64_small (by omega)]
+  · rw [w64_small (by omega)]; simp
+
+/-- `create_pool` puts the data area exactly where `pool_size_from_bitmap_count` budgets it, whatever address mmap returned -/
+theorem createPool_dataOff (p : Pool) (ho : 0 < p.objSize) (id base : Nat) :
+    (createPool p id base).dataOff = HDR + 4 * p.bitmapCount + padTo (HDR + 4 * p.bitmapCount) p.objSize := by
+  simp only [createPool, padTo]
+  have := Nat.mod_lt (HDR + 4 * p.bitmapCount) ho
+  split <;> omega
+
+/-- the `for (;;)` of `mem_pool_create`: the count it stops at is the first whose total exceeds `DEF_POOL_SIZE` -/
+theorem searchCount_spec {o : Nat} : ∀ (fuel c0 c : Nat), searchCount o fuel c0 = some c → c0 + fuel < 18446744073709551616 →
+    c0 ≤ c ∧ c < c0 + fuel ∧ (∃ t, poolSizeFromBitmapCount c o = some t ∧ t > DEF_POOL_SIZE) ∧
+    (∀ c', c0 ≤ c' → c' < c → ∃ t, poolSizeFromBitmapCount c' o = some t ∧ t ≤ DEF_POOL_SIZE)
+  | 0, c0, c, h, _ => by simp [searchCount] at h
+  | fuel + 1, c0, c, h, hb => by
+    unfold searchCount at h
+    cases ht : poolSizeFromBitmapCount c0 o with
+    | none => simp [ht] at h
+    | some total =>
+      simp only [ht] at h
+      split at h
+      · rename_i hgt
+        cases h
+        exact ⟨Nat.le_refl _, by omega, ⟨total, ht, hgt⟩, fun c' h1 h2 => by omega⟩
+      · rename_i hle
+        rw [w64_small (by omega)] at h
+        obtain ⟨h1, h2, h3, h4⟩ := searchCount_spec fuel (c0 + 1) c h (by omega)
+        refine ⟨by omega, by omega, h3, fun c' hc1 hc2 => ?_⟩
+        by_cases hc : c' = c0
+        · subst hc; exact ⟨total, ht, by omega⟩
+        · exact h4 c' (by omega) hc2
+
+/-- What `mem_pool_create(n)` returns, for every `n` it accepts (`n ≥ 1`; sizes below 2^32 - 8, where no `size_t` arithmetic
+wraps): obj_size is `n` rounded up to `MEM_ALIGN`; there is AT LEAST ONE bitmap word (before the repair: 0 for obj_size > 1984);
+header, bitmap, padding and the `32 * bitmap_count` objects fit into `pool_size` -/
+theorem create_spec {n : Nat} {p : Pool} (hn : n + 8 ≤ 4294967296) (h : create n = .ok p) :
+    8 ≤ p.objSize ∧ p.objSize % 8 = 0 ∧ n ≤ p.objSize ∧ p.objSize < n + 8 ∧ 1 ≤ p.bitmapCount ∧ p.bitmapCount ≤ 16384 ∧ p.blocks = [] ∧
+    HDR + 4 * p.bitmapCount + padTo (HDR + 4 * p.bitmapCount) p.objSize + 32 * p.bitmapCount * p.objSize ≤ p.poolSize := by
+  unfold create at h
+  simp only [Bool.not_true, Bool.false_eq_true, if_false] at h
+  have hobd : n ≤ alignUp n ∧ alignUp n < n + 8 ∧ alignUp n % 8 = 0 := by
+    unfold alignUp; simp only [MEM_ALIGN]
+    by_cases hm : n % 8 = 0
+    · simp [hm]
+    · simp only [ne_eq, hm, not_false_eq_true, if_true]; rw [w64_small (by omega)]; omega
+  generalize alignUp n = o at h hobd
+  unfold createSized at h
+  split at h
+  · cases h
+  · rename_i hne
+    have hpos : 0 < o := Nat.pos_of_ne_zero hne
+    have hH : HDR = 40 := rfl
+    cases hs : searchCount o SEARCH_FUEL 1 with
+    | none => simp [hs] at h
+    | some count =>
+      simp only [hs] at h
+      obtain ⟨h1, h2, _, h4⟩ := searchCount_spec SEARCH_FUEL 1 count hs (by decide)
+      have hF : SEARCH_FUEL = 16400 := rfl
+      have hcm : w64 (count + 18446744073709551615) = count - 1 := by unfold w64; omega
+      rw [hcm] at h
+      split at h
+      · have hl := size_layout (c := 1) hpos (by omega) (by omega)
+        rw [hl] at h
+        simp only [CreateRes.ok.injEq] at h
+        subst h
+        dsimp only
+        exact ⟨by omega, hobd.2.2, hobd.1, hobd.2.1, Nat.le_refl _, by omega, rfl, Nat.le_refl _⟩
+      · rename_i hc0
+        simp only [CreateRes.ok.injEq] at h
+        subst h
+        dsimp only
+        obtain ⟨t, ht, hle⟩ := h4 (count - 1) (by omega) (by omega)
+        rw [size_layout hpos (by omega) (by omega)] at ht
+        simp only [Option.some.injEq] at ht
+        have hD : DEF_POOL_SIZE = 65536 := rfl
+        refine ⟨by omega, hobd.2.2, hobd.1, hobd.2.1, by omega, ?_, rfl, ?_⟩
+        · omega
+        · omega
+
+/-- positive counterpart of `witness_bitmap_count_zero`: every pool `mem_pool_create` returns has at least one bitmap word -/
+theorem create_count_pos {n : Nat} {p : Pool} (hn : n + 8 ≤ 4294967296) (h : create n = .ok p) : 1 ≤ p.bitmapCount :=
+  (create_spec hn h).2.2.2.2.1
+
+/-- the pool `mem_pool_create` returns is consistent with "nothing handed out" -/
+theorem create_inv {n : Nat} {p : Pool} (hn : n + 8 ≤ 4294967296) (h : create n = .ok p) (e : Env) : Inv p e [] ∧ 2 ≤ p.objSize := by
+  obtain ⟨h1, _, _, _, _, h6, h7, _⟩ := create_spec hn h
+  exact ⟨inv_empty e (by omega) h6 h7, by omega⟩
+
+/-- positive counterpart of `witness_data_area_overrun`: for EVERY address mmap returns, the block `create_pool` lays out has its
+data area behind header and bitmap and ending inside the `pool_size` bytes that were mapped -/
+theorem data_inside_mapping {n : Nat} {p : Pool} (hn : n + 8 ≤ 4294967296) (h : create n = .ok p) (id base : Nat) :
+    HDR + 4 * p.bitmapCount ≤ (createPool p id base).dataOff ∧
+    (createPool p id base).dataOff + 32 * p.bitmapCount * p.objSize ≤ p.poolSize := by
+  obtain ⟨h1, _, _, _, _, _, _, h8⟩ := create_spec hn h
+  rw [createPool_dataOff p (by omega)]
+  exact ⟨by omega, h8⟩
+
+/-- every object handed out in a consistent pool whose layout fits `pool_size` (as `create_spec` establishes; the three
+parameters never change) ends inside the mapped block -/
+theorem alloc_inside_mapping {fuel : Nat} {p p' : Pool} {e e' : Env} {live : List (Nat × Nat)} {bid off : Nat} (h : Inv p e live)
+    (hfit : HDR + 4 * p.bitmapCount + padTo (HDR + 4 * p.bitmapCount) p.objSize + 32 * p.bitmapCount * p.objSize ≤ p.poolSize)
+    (ha : allocate fuel p e = (.ptr bid off, p', e')) : off + p.objSize ≤ p.poolSize := by
+  have hs := alloc_step fuel h
+  rw [ha] at hs
+  obtain ⟨hinv, _, b, hb, _, _, hlim, _⟩ := hs
+  have hwf := hinv.wf b hb
+  have h1 := hwf.lim
+  have h2 := hwf.doff
+  have e1 : p'.objSize = p.objSize := by have := allocate_objSize fuel p e; rw [ha] at this; exact this
+  have e2 : p'.bitmapCount = p.bitmapCount := by have := allocate_bitmapCount fuel p e; rw [ha] at this; exact this
+  rw [e1, e2] at h1 h2
+  omega
+
+/-- positive counterpart of `witness_bitmap_count_zero`, second half: with at least one bitmap word an allocation succeeds
+whenever mmap has an address to give (NULL only when mmap fails) -/
+theorem alloc_succeeds {fuel : Nat} {p : Pool} {e : Env} {live : List (Nat × Nat)} {base : Nat} {q : List (Option Nat)}
+    (h : Inv p e live) (hc : 1 ≤ p.bitmapCount) (hq : e.q = some base :: q) :
+    ∃ bid off, (allocate (fuel + 1) p e).1 = .ptr bid off := by
+  unfold allocate
+  have hw := walk_spec h.cnt p.blocks h.wf
+  cases hwk : walk p.objSize p.blocks with
+  | got bid off bs => exact ⟨bid, off, rfl⟩
+  | stale bs => rw [hwk] at hw; exact hw.elim
+  | none =>
+    simp only [hq]
+    obtain ⟨hwf, _, hfree, _⟩ := createPool_wf h.osz h.cnt e.nextId base
+    obtain ⟨k, b', ht, _⟩ := takeSlot_spec hwf (by rw [hfree]; omega) h.cnt
+    rw [ht]
+    exact ⟨_, _, rfl⟩
+
 /-! ### instances (the hypotheses are satisfiable, the functions compute) -/
 
 /-- `mem_pool_create(33)` as the real code answers it: obj_size 40, 50 bitmap words -/
@@ -396,37 +576,42 @@ def exEnv : Env := ⟨[some 35184372092928, none], 0⟩
 
 example : create 33 = .ok exPool := by decide
 example : Inv exPool exEnv [] := inv_empty _ (by decide) (by decide) rfl
-/-- first allocation: block 0 is mapped, the object is slot 0 at offset 272 (= data, 35184372092928 + 272 is a multiple of 40) -/
-example : (allocate 3 exPool exEnv).1 = .ptr 0 272 := by decide
+/-- first allocation: block 0 is mapped, the object is slot 0 at offset 240 (= data: header 40 + bitmap 200, a multiple of 40) -/
+example : (allocate 3 exPool exEnv).1 = .ptr 0 240 := by decide
 /-- alloc, alloc, free of the first, alloc: the freed slot is handed out again (d: "may reuse") -/
 example : (match allocate 3 exPool exEnv with
     | (_, p1, e1) => match allocate 3 p1 e1 with
-      | (_, p2, e2) => match free p2 0 272 with
+      | (_, p2, e2) => match free p2 0 240 with
         | .ok p3 => (allocate 3 p3 e2).1
-        | .error _ => .null) = .ptr 0 272 := by decide
+        | .error _ => .null) = .ptr 0 240 := by decide
 /-- double free and a pointer outside every block are detected -/
 example : (match allocate 3 exPool exEnv with
-    | (_, p1, _) => match free p1 0 272 with
-      | .ok p2 => (match free p2 0 272 with | .error x => some x | .ok _ => none, match free p2 1 272 with | .error x => some x | .ok _ => none,
-                   match free p2 0 273 with | .error x => some x | .ok _ => none)
+    | (_, p1, _) => match free p1 0 240 with
+      | .ok p2 => (match free p2 0 240 with | .error x => some x | .ok _ => none, match free p2 1 240 with | .error x => some x | .ok _ => none,
+                   match free p2 0 241 with | .error x => some x | .ok _ => none)
       | .error _ => (none, none, none)) = (some .notAllocated, some .noBlock, some .misaligned) := by decide
 /-- a history that respects the API runs to its end (so `history_inv` is not vacuous): two objects, the first freed, handed out again -/
-example : (runOps exPool exEnv [] [.alloc, .alloc, .free (0, 272), .alloc, .free (0, 312)]).map (fun r => r.2.2) = some [(0, 272)] := by decide
+example : (runOps exPool exEnv [] [.alloc, .alloc, .free (0, 240), .alloc, .free (0, 280)]).map (fun r => r.2.2) = some [(0, 240)] := by decide
 /-- an mmap failure: NULL, pool unchanged -/
 example : allocate 3 exPool ⟨[none], 0⟩ = (.null, exPool, ⟨[], 0⟩) := by decide
 
-/-! ### the current code violates two intended properties for object sizes no caller uses today (known findings of C19) -/
+/-! ### the code BEFORE the repair `fixes/C19-mempool-latent.patch` violated three intended properties (former known findings of C19) -/
 
-/-- obj_size 2048: `bitmap_count` is 0; `mem_pool_allocate` maps every block mmap will give and returns NULL -/
+/-- before: obj_size 2048 gave `bitmap_count` 0, and on such a pool `mem_pool_allocate` (unchanged by the repair) maps every block
+mmap will give and returns NULL -/
 theorem witness_bitmap_count_zero :
-    create 2048 = .ok ⟨2048, 65536, 0, []⟩ ∧
+    createOld 2048 = .ok ⟨2048, 65536, 0, []⟩ ∧
     (match allocate 9 ⟨2048, 65536, 0, []⟩ ⟨[some 4096, some 135168, some 266240], 0⟩ with
      | (r, p', e') => (r, p'.blocks.map (·.id), e')) = (.null, [2, 1, 0], ⟨[], 3⟩) := by decide
 
-/-- obj_size 1008 (bitmap_count 2, 64 objects) at a page-aligned mmap address = 976 mod 1008: the data area ends 16 bytes behind
-the 65536-byte mapping (`create_pool` pads by the absolute address, `pool_size_from_bitmap_count` by the offset) -/
+/-- before: obj_size 1008 (bitmap_count 2, 64 objects) at a page-aligned mmap address = 976 mod 1008: the data area ended 16 bytes
+behind the 65536-byte mapping (`create_pool` padded by the absolute address, `pool_size_from_bitmap_count` by the offset) -/
 theorem witness_data_area_overrun :
-    create 1008 = .ok ⟨1008, 65536, 2, []⟩ ∧ 35184372183040 % 4096 = 0 ∧
-    (createPool ⟨1008, 65536, 2, []⟩ 0 35184372183040).dataOff + 64 * 1008 = 65552 := by decide
+    createOld 1008 = .ok ⟨1008, 65536, 2, []⟩ ∧ 35184372183040 % 4096 = 0 ∧
+    (createPoolOld ⟨1008, 65536, 2, []⟩ 0 35184372183040).dataOff + 64 * 1008 = 65552 := by decide
+
+/-- before: `1 << 31` in type `int` is undefined; repaired: `1U << j` is defined for every bit of a word -/
+theorem witness_free_shift_31 : shiftIntOld 31 = none ∧ ∀ j, j < 32 → shiftUnsigned j = some (BitVec.twoPow 32 j) := by
+  refine ⟨by decide, fun j hj => by simp [shiftUnsigned, hj]⟩
 
 end Sqfs.MemPool
